@@ -307,7 +307,7 @@ def run_tap(spec, rec):
         keys = G.Keys()
         sg = G.SigGen(rng, keys)
         half = spec["n"] // 2
-        for gen in (sg.p2pk_like(half), sg.multisig(half // 3), G.two_sigops_cases(rng, keys, half // 4)):
+        for gen in (sg.p2pk_like(half), sg.multisig(half // 3), G.two_sigops_cases(rng, keys, half // 4), G.embedded_sig_length_cases(rng, keys)):
             for case in gen:
                 del seen[:]
                 del seen_pairs[:]
